@@ -25,10 +25,11 @@ type action struct {
 }
 
 type descriptor struct {
-	Starts  int      `json:"starts"` // start events 1..3
-	Chain   []int    `json:"chain"`  // tasks per start chain (0..2)
-	Merge   bool     `json:"merge"`  // chains merge (exclusive gateway) into a common tail task
-	Par     bool     `json:"par"`    // first chain contains a parallel block (2 concurrent tasks)
+	Starts  int      `json:"starts"`  // start events 1..3
+	Chain   []int    `json:"chain"`   // tasks per start chain (0..2)
+	Merge   bool     `json:"merge"`   // chains merge (exclusive gateway) into a common tail task
+	Par     bool     `json:"par"`     // first chain contains a parallel block (2 concurrent tasks)
+	ForkEnd int      `json:"forkEnd"` // 0 none; 1 parallel fork, 2 task with two outgoing flows: the FIRST branch goes straight to an end event, the second to a task
 	Actions []action `json:"actions"`
 	Perturb uint64   `json:"perturb"`
 }
@@ -65,6 +66,21 @@ func build(d descriptor) *gen.Graph {
 			t := b.Add(gen.KTask)
 			b.Connect(cur, t)
 			cur = t
+		}
+		if i == 0 && d.ForkEnd > 0 {
+			// a fork whose continuing (first listed) branch is consumed at once
+			var f *gen.Node
+			if d.ForkEnd == 1 {
+				f = b.Add(gen.KPar)
+			} else {
+				f = b.Add(gen.KTask)
+			}
+			b.Connect(cur, f)
+			e1 := b.Add(gen.KEnd)
+			b.Connect(f, e1)
+			t2 := b.Add(gen.KTask)
+			b.Connect(f, t2)
+			cur = t2
 		}
 		if d.Merge {
 			b.Connect(cur, merge)
@@ -321,7 +337,7 @@ func draw(rt *rapid.T) descriptor {
 		maxStarts = 1
 	}
 	d := descriptor{Starts: rapid.IntRange(1, maxStarts).Draw(rt, "starts"), Merge: rapid.Bool().Draw(rt, "merge"), Par: rapid.Bool().Draw(rt, "par"),
-		Perturb: uint64(rapid.IntRange(0, 500).Draw(rt, "perturb"))}
+		Perturb: uint64(rapid.IntRange(0, 500).Draw(rt, "perturb")), ForkEnd: rapid.SampledFrom([]int{0, 0, 1, 2}).Draw(rt, "forkEnd")}
 	for i := 0; i < d.Starts; i++ {
 		d.Chain = append(d.Chain, rapid.IntRange(0, 2).Draw(rt, "chain"))
 	}
